@@ -1,3 +1,4 @@
+import RsyncModel.TagTable
 import RsyncModel.PureTie
 import RsyncModel.Delta.Honest
 import RsyncModel.Delta.GoThm
@@ -78,4 +79,23 @@ theorem source_pack_and_tag (s1 s2 x sum : UInt32) :
     Gen.Pure.packSum s1 s2 x = pack (s1, s2) ∧ Gen.Pure.Tag sum = tag sum :=
   ⟨PureTie.packSum_tied s1 s2 x, PureTie.tag_tied sum⟩
 
-end C16
+
+/-! ### The tag table: a pre-filter that misses nothing -/
+
+/-- **every block with the window's tag is a candidate**: for a table of `(tag, block)` pairs sorted
+by tag — any number of blocks, any multiplicity of a tag, any block index — the scan `hashSearch`
+performs from the table's first entry for the tag, while the tag stays equal, visits exactly the
+blocks with that tag. So whether a match is found does not depend on where in the (arbitrarily
+large) signature the block stands. -/
+theorem tag_lookup_complete (targets : List (Nat × Nat)) (t : Nat) (hs : TagTable.SortedByTag targets) :
+    TagTable.lookup targets t = (targets.filter (fun p => p.1 == t)).map (·.2) :=
+  TagTable.lookup_complete targets t hs
+
+/-- **Regenerated (as text)**: how `SendFiles` builds that table — one pair per block carrying the
+block's *full* index and `Tag(sum1)`, sorted by tag alone with `sort.Slice`, the index map filled
+from the back so that it points at the first entry of each tag. (The construction sorts structs
+through a closure and fills a map, which the translator does not cover; it is pinned verbatim, so a
+different key, a truncated index or another fill order is a broken obligation.) -/
+theorem tag_table_construction :
+    Gen.Pure.tagTableSetup = ["targets := make([]target, len(head.Sums))", "tagTable := make(map[uint16]int)",
+      "{ for idx, sum := range head.Sums { targets[idx] = target{ index: int32(idx), tag: rsyncchecksum.Tag(sum.Sum1), } } sort.Slice(targets, func(i, j int) bool { return targets[i].tag < targets[j].tag }) for idx := len(head.Sums) - 1; idx >= 0; idx-- { tagTable[targets[idx].tag] = idx } }"] := rfl
